@@ -212,6 +212,40 @@ def rule_ml(repo: Repo, rep: Report) -> int:
     return n + 1
 
 
+def chien_evaluated(rep: Report, fe: FuncInfo) -> None:
+    """An unlisted spelling of the root search is run (own GF(2^4) arithmetic, frag evaluator) on error locators
+    sigma(x) = prod (1 + alpha^p x) built from known position sets; it must return exactly those positions."""
+    from ..constfold import Unfoldable
+    from ..frag import FragRaise, FragReturn, run_fragment
+    from ..gf2 import GFE
+
+    mod, nn = 0b10011, 15
+    one, zero, alpha = GFE(1, mod), GFE(0, mod), GFE(2, mod)
+    what = "Chien search: positions returned for sigma(x) = prod (1 + alpha^p x)"
+    for positions in ([0], [3], [14], [0, 7], [2, 5, 11], [0, 1, 14], []):
+        sigma = [one]
+        for p_ in positions:
+            loc = alpha ** p_
+            nxt = [zero] * (len(sigma) + 1)
+            for i, c in enumerate(sigma):
+                nxt[i] = nxt[i] + c
+                nxt[i + 1] = nxt[i + 1] + c * loc
+            sigma = nxt
+        try:
+            run_fragment(fe.body, {"error_locator_poly": sigma}, {"self.field.primitive_element()": alpha, "self.field.one": one, "self.field.zero": zero, "self.code_length": nn, "self.field.alpha": alpha}, max_steps=200000)
+            rep.undecided("BM", fe, what, "no value returned")
+            return
+        except FragReturn as r:
+            got = r.value
+        except (Unfoldable, FragRaise, TypeError) as exc:
+            rep.undecided("BM", fe, what, f"root search outside the evaluator ({exc})")
+            return
+        if not isinstance(got, list) or sorted(got) != sorted(positions):
+            rep.violation("BM", fe, what, f"for errors at positions {positions} (n = 15, GF(16)) the search returns {got}: a located error is reported at the wrong position (and dropped or mis-corrected by the caller)", node=fe.node)
+            return
+    rep.ok("BM", fe, what, "unlisted spelling; returns exactly the error positions on 7 position sets over GF(16)")
+
+
 def rule_bm(repo: Repo, rep: Report) -> int:
     ci = repo.cls(BM, "BerlekampMasseyDecoder")
     n = 0
@@ -233,14 +267,15 @@ def rule_bm(repo: Repo, rep: Report) -> int:
     fe = repo.method(ci, "_find_error_locations")
     loops = [s for s in fe.body if isinstance(s, ast.For)]
     it = unparse(loops[0].iter) if loops else "?"
-    if it == "range(n)":
+    body = statement_texts(fe)
+    listed = "x = alpha ** (n - j) if j > 0 else self.field.one" in body and "result = result + coef * x ** i" in body and "error_positions.append(j)" in body and any(unparse(s.test) == "result == self.field.zero" for s in stmts_of(fe.body) if isinstance(s, ast.If))
+    if listed and it == "range(n)":
         rep.ok("BM", fe, f"Chien search: for j in {it}", "every position is tested")
-    elif loops and it.startswith("range("):
+        rep.ok("BM", fe, "position j is in error iff sigma(alpha^-j) = 0", "roots of the error locator are the inverse locators")
+    elif listed and loops and it.startswith("range("):
         rep.violation("BM", fe, f"Chien search: for j in {it}", "the root search must cover all n positions", node=loops[0])
     else:
-        rep.undecided("BM", fe, f"Chien loop {it}", "not recognised")
-    body = statement_texts(fe)
-    rep.expect("x = alpha ** (n - j) if j > 0 else self.field.one" in body and "result = result + coef * x ** i" in body and "error_positions.append(j)" in body and any(unparse(s.test) == "result == self.field.zero" for s in stmts_of(fe.body) if isinstance(s, ast.If)), "BM", fe, "position j is in error iff sigma(alpha^-j) = 0", "roots of the error locator are the inverse locators", "root test changed")
+        chien_evaluated(rep, fe)
     n += 2
     fwd = repo.method(ci, "forward")
     cl = fwd.nested("decode_block")
@@ -320,6 +355,11 @@ def run(repo: Repo, rep: Report, tier: str) -> None:
     n += rule_ml(repo, rep)
     n += rule_bm(repo, rep)
     n += rule_hamming(repo, rep)
+    # the syndrome-table and Hamming decoders key their corrections by H e^T: the check matrix the encoders derive from a
+    # generator must be orthogonal to the code (rule shared with C01)
+    from .c01 import rule_null_space
+
+    n += rule_null_space(repo, rep)
     rep.floor("C02 rule instances", n, 45)
     rep.decided_clauses += [
         "no value-, length-, field- or row-index-keyed special case in any hard-decision decoder or encoder inverse",
@@ -327,5 +367,6 @@ def run(repo: Repo, rep: Report, tier: str) -> None:
         "brute-force ML: complete codebook from the encoder, argmin Hamming distance over all codewords, message at the winning index",
         "Berlekamp-Massey: t and field from the encoder, S_1..S_2t, Chien search over all positions, exact flips, LFSR update shape",
         "Hamming inverse: position = check-matrix column equal to the syndrome",
+        "the check matrix computed from a generator (compute_null_space_matrix) is orthogonal to the code on sample matrices (shared with C01)",
     ]
     rep.undecided_clauses += ["that BM/Chien, the Reed majority logic and the syndrome table correct every pattern of weight <= t (algorithmic behaviour over field values)", "Reed-Muller majority decoder (placeholder partitions)"]
